@@ -70,6 +70,18 @@ PairBad(r) ==
          p \in {q \in I \X I \X I : r.compat[q[1]][q[2]] /\ r.compat[q[2]][q[3]]
                                      /\ ~r.compat[q[1]][q[3]]}}
 
+(* Reading of a narrowing result.  The compiler keeps the VARIANTS of the declared type A   *)
+(* (narrowing.rs: "resolve a recursive field's Cycle to the boundary fixed by the type       *)
+(* definition ... complement narrowing can drop sibling variants from the scrutinee"): the   *)
+(* members of a result union are variants of A, their Cycle(1) still means A.  A value is    *)
+(* counted as lost only if NEITHER this reading NOR the plain graph reading admits it.       *)
+ResMay(G, U, v, r, a) ==
+  LET ctxA == IF G.types[a].k = "uni" THEN <<a>> ELSE <<>> IN
+  \/ MayInhabit(G, U, v, r, D)
+  \/ IF G.types[r].k = "uni"
+     THEN \E m \in Range(G.types[r].ms) : In(G, U, FALSE, v, m, ctxA, D)
+     ELSE In(G, U, FALSE, v, r, ctxA, D)
+
 (* the result graphs come from the code: only judge results the semantics terminates on *)
 Judgeable(G, ids) == \A n \in ids : Contr(G, n, FALSE)
 
@@ -80,12 +92,12 @@ NarrowBad(r) ==
          IN  IF ~Judgeable(G, ids) THEN {}
              ELSE (IF n.inter = <<>> THEN {}
                    ELSE LET lost == {v \in Common(G, U, n.a, n.b, D) :
-                                       ~MayInhabit(G, U, v, n.inter[1], D)}
+                                       ~ResMay(G, U, v, n.inter[1], n.a)}
                         IN  IF lost = {} THEN {} ELSE {Mis("INTER", n.i, n.j, 0, Wit(lost))})
                   \cup
                   (IF n.compl = <<>> THEN {}
                    ELSE LET lost == {v \in Diff(G, U, n.a, n.b, D) :
-                                       ~MayInhabit(G, U, v, n.compl[1], D)}
+                                       ~ResMay(G, U, v, n.compl[1], n.a)}
                         IN  IF lost = {} THEN {} ELSE {Mis("COMPL", n.i, n.j, 0, Wit(lost))})
          : n \in Range(r.narrow)}
 
